@@ -26,13 +26,13 @@ def main(argv):
         rep = json.load(open(argv[2]))
         print(json.dumps(rep, indent=1)[:4000])
         import importlib
-        mod = importlib.import_module(spec["module"])
+        mod = importlib.import_module(spec["modules"][0])
         if hasattr(mod, "replay_file"):
             return mod.replay_file(rep)
         return 0
     tier = os.environ.get("VERIF_TIER") or argv[1]
     seed = int(os.environ.get("VERIF_SEED", "0") or 0)
-    return run.run_check(prop, spec["module"], tier=tier, seed=seed, level=spec["level"],
+    return run.run_check(prop, spec["modules"], tier=tier, seed=seed, level=spec["level"],
                          assumptions=spec.get("assumptions", []), trusted=spec.get("trusted_base", []),
                          explanation=spec.get("explanation", ""))
 
